@@ -19,7 +19,7 @@ BOUNDS = {'quick': 'die height 4 (then transposed: width 4), die extent on the o
                    'symbolic breakpoints 0<b1<...<W (gaps in [0.01,250]); k<=1 region on 16 placements x 3 kinds (blockage, '
                    'specialised, fixed module) and k=2 regions on 14 placements with <=3 breakpoints; k=3 regions at concrete places in all 60 mixed orders of the tags #/dsp/bram/fixed; region lists of every length 4..8 at concrete places (20 cases); bands from {full, lower, middle, upper, lower half, upper half}; '
                    'negative harness: one region sticking out, two regions overlapping; binary64 kernel: decimal coordinates n/10, n/100 with n < 2^8 (2^10 thorough)',
-          'thorough': 'k=2 on all generated placements over <=3 breakpoints (3 tag pairs) and a sample of the placements over 4 breakpoints (two band pairs); k=3 symbolic on 3 stacked/side-by-side placements; decimal kernel with n < 2^10 (steps 0.1 and 0.01)'}
+          'thorough': 'k=2 on all generated placements over <=3 breakpoints (3 tag pairs) and a sample of the placements over 4 breakpoints (two band pairs); k=3 symbolic on 2 stacked/side-by-side placements (<= 4 breakpoints); decimal kernel with n < 2^10 (steps 0.1 and 0.01)'}
 ASSUMPTIONS = ['R model; tolerances preset 1e-10/1e-5; distinct boundary coordinates differ by >= 0.01',
                'one axis symbolic at a time']
 NOT_DECIDED = ['binary64 rounding beyond the inside test of decimal coordinates n/10, n/100 (the fp-border kernel runs the real Die._check_rectangles inside test on z3 FloatingPoint terms)', 'both axes symbolic at once',
@@ -127,7 +127,7 @@ def cases(tier):
         for bits, scale in ((8, 10), (8, 100)) if tier == 'quick' else ((10, 10), (10, 100)):
             cs.append(dict(kind='fp-border', axis=axis, bits=bits, scale=scale, slow=(500 if tier == 'quick' else 1500)))
     if tier == 'thorough':
-        for nb, regs in ((4, [(0, 1), (1, 2), (3, 4)]), (3, [(0, 3), (1, 2), (1, 2)]), (5, [(1, 2), (2, 4), (3, 5)])):
+        for nb, regs in ((4, [(0, 1), (1, 2), (3, 4)]), (3, [(0, 3), (1, 2), (1, 2)])):   # (a 5-breakpoint placement did not finish in 40 min per case)
             for bands in (('lower', 'middle', 'upper'), ('lowhalf', 'uphalf', 'uphalf'), ('full', 'full', 'full')):
                 ok = all(not (overlap_1d(regs[i], regs[j]) and overlap_1d(BANDS[bands[i]], BANDS[bands[j]]))
                          for i in range(3) for j in range(i + 1, 3))
@@ -138,7 +138,7 @@ def cases(tier):
     return cs
 
 
-OPTS = {'quick': dict(max_paths=30000, budget_s=900), 'thorough': dict(max_paths=300000, budget_s=2400)}
+OPTS = {'quick': dict(max_paths=30000, budget_s=900), 'thorough': dict(max_paths=300000, budget_s=3600)}
 
 
 def ctx_class(case):
